@@ -1,19 +1,5 @@
-"""Per-property manifest metadata (level, claim text, trusted base, technique)."""
-META = {
- 'C17': dict(level='exploration', ref='§3 C17',
-   text='Hypothesis-generated keys/bounds/inputs/counts/shapes; determinism, range, length/shape and '
-        'scalar/list/array consistency checked, plus a differential against an independent '
-        're-implementation of the documented shake_128 construction. Sampled search: no absence claim.',
-   note='Trusts hashlib.shake_128 and numpy 2.5.3 (array variant); bounds up to 2^300, keys up to 64 bytes.',
-   technique='property-based testing (Hypothesis): differential vs reference PRF + determinism/range/shape laws'),
-
- 'C01': dict(level='exploration', ref='§3 C01',
-   text='Generated straight-line SecInt(l) programs covering every operation of the statement, executed by the unmodified mpyc code of m parties in the in-process simulator (m=1..7, every legal t, PRSS on/off, l=2..16, thorough to 64) and compared node-by-node with Python integer arithmetic at every receiving party. Sampled search over programs, inputs and configurations; no absence claim.',
-   note='Trusts the simulator wiring (real Runtime/MessageExchanger objects, in-memory transports) and Python int arithmetic as oracle; sec_param=30; comparison operands generated with in-range differences.',
-   technique='property-based testing (Hypothesis) of generated MPC programs in a multi-party simulator, differential vs Python int reference interpreter'),
- 'C08': dict(level='exploration', ref='§3 C08',
-   text='Each generated program (with mid-program awaits on possibly-completed values, barriers, public zero tests, user coroutines) is executed under >=8 harness-owned schedules (round-robin, serial, fast, PCT priorities with change points, seeded random walks, generated stream chunkings); every schedule must run every party to completion (hang = quiescence with a pending main task, no wall clock) with reference-equal outputs. Explores the PCT/random-walk schedule family, not all interleavings.',
-   note='Schedule model preserves per-party callback FIFO and per-connection byte FIFO and is fair (bounded postponement), so explored schedules are realisable; real sockets replaced by in-memory transports.',
-   technique='property-based testing with harness-owned schedules (PCT-style + random walk) in a multi-party simulator; oracle: completion at quiescence + reference-equal outputs across schedules'),
-}
+"""Per-property manifest metadata (level, claim text, trusted base, technique): tools/meta.d/<ID>.json."""
+import glob, json, os
+_d = os.path.join(os.path.dirname(os.path.abspath(__file__)), 'meta.d')
+META = {os.path.basename(f)[:-5]: json.load(open(f)) for f in sorted(glob.glob(os.path.join(_d, 'C*.json')))}
 NOT_APPLICABLE = {}
